@@ -100,6 +100,19 @@ def fixed_scenarios():
     out.append(p.scn("two merges pulling one register to two different nodes", [("g2", a, b0, "cnot"), ("g2", c, d2, "cnot")]))
     p = P(); a = p.new(0); b = p.new(1); b0 = p.send(b, 0); c = p.new(1); p.g1(a, "H")
     out.append(p.scn("send racing with a merge", [("g2", a, b0, "cnot"), ("send", c, 0)]))
+    # four nodes: a Bell pair simulated at node 1 with its halves held at nodes 0 and 2; node 2 pulls the register while node 0
+    # forwards / measures / rotates its half (numbers read before the lock, handles kept across the wait, locks released at the wrong node)
+    C4 = [[6, 8], [6, 8], [6, 8], [6, 8]]
+    for gate_first in (True, False):
+        p = P(C4); b = p.new(1); d = p.new(1); p.g1(b, "H"); p.g2(b, d); b0 = p.send(b, 0); d2 = p.send(d, 2); c = p.new(2); p.g1(c, "H")
+        pull = ("g2", c, d2, "cnot") if gate_first else ("g2", d2, c, "cnot")
+        tag = "control local" if gate_first else "control remotely simulated"
+        out.append(p.scn("forwarding a half to a fourth node whose register is being pulled to another node (%s)" % tag,
+                         [pull, ("send", b0, 3)]))
+        out.append(p.scn("measuring a half whose register is being pulled to another node (%s)" % tag,
+                         [pull, ("meas", b0, 0), ("new", 1)], {str(b): [1], str(d): [0]}))
+        out.append(p.scn("forwarding and gate on a half whose register is being pulled to another node (%s)" % tag,
+                         [pull, ("g1", b0, "X"), ("send", b0, 3)]))
     # -- two clients, one qubit ----------------------------------------------------------------------------------------
     p = P(); a = p.new(0); b = p.new(0); p.g1(a, "H"); p.g2(a, b)
     out.append(p.scn("the same qubit sent twice", [("send", a, 1), ("send", a, 2)]))
@@ -367,8 +380,9 @@ def explore(ctx, pid, scenarios, per_scn, env, cases=None):
         # scenarios in which a register changes its simulating node while other operations wait for it need a particular
         # interleaving (a few percent of the random schedules): they get four times as many schedules
         heavy = any(w in scn["name"] for w in ("pulled", "pulling", "crossing directions", "both-remote merge"))
-        very = "whose register is being pulled" in scn["name"]     # a gate slipping between lock release and register move: ~2 % of schedules
-        for _ in range(per_scn * (12 if very else 4 if heavy else 1)):
+        very = "gate and measurement of a qubit whose register is being pulled" in scn["name"]     # a gate slipping between lock release and register move: ~2 % of schedules
+        four = "to another node (" in scn["name"]             # the four-node variants of the same race
+        for _ in range(per_scn * (12 if very else 6 if four else 4 if heavy else 1)):
             seed = ctx.rng.randrange(1 << 30)
             p_tick = ctx.rng.choice([0.0, 0.03, 0.1, 0.3, 0.6])
             res = conc.run_concurrent(env, scn, seed=seed, p_tick=p_tick, p_idle=ctx.rng.choice([0.0, 0.1, 0.3]))
